@@ -128,9 +128,9 @@ def gen_data(rng, vs, n):
     return out
 
 
-def evaluate_and_explain(text, vs, data, n, pre=None):
+def evaluate_and_explain(text, vs, data, n, pre=None, extra=()):
     def go():
-        spec = impl.make_spec("offd", text, vs, single=True)
+        spec = impl.make_spec("offd", text, vs, single=True, extra_decl=list(extra))
         spec.parse()
         if pre is not None:
             # the object has been used before: another trace evaluated and explained
@@ -149,8 +149,8 @@ def evaluate_and_explain(text, vs, data, n, pre=None):
     return impl.guarded(go)
 
 
-def rho0(text, vs, data, n):
-    o = impl.eval_offline_discrete(text, vs, data, n)
+def rho0(text, vs, data, n, extra=()):
+    o = impl.eval_offline_discrete(text, vs, data, n, extra_decl=list(extra))
     return o if o[0] != "ok" else ("ok", o[1][0][1])
 
 
@@ -195,15 +195,18 @@ def compare_gen(ctx, what, ex, mg, text, rep):
     ctx.count("translated-explainer agrees")
 
 
-def check_case(ctx, f, data, n, rng, mo=None, mg=None, pre="random"):
+def check_case(ctx, f, data, n, rng, mo=None, mg=None, pre="random", text=None, extra=()):
+    """`text` / `extra`: a modular text (named sub-formulas) whose inlined form is `f`; then only sufficiency is judged (explain()
+    also explains the named assertions that are violated themselves, and the mirror knows single formulas)."""
     vs = sorted(data)
-    text = "out = " + F.to_text(f)
+    modular = text is not None
+    text = text or "out = " + F.to_text(f)
     if pre == "random":
         pre = gen_data(rng, vs, rng.randint(1, 8)) if rng.random() < 0.25 else None
     if pre is not None:
         ctx.count("reused-object")
-    out = evaluate_and_explain(text, vs, data, n, pre)
-    rep = {"pre": pre, "spec": text, "formula": F.to_proto(f), "data": data, "n": n, "impl": out}
+    out = evaluate_and_explain(text, vs, data, n, pre, extra)
+    rep = {"pre": pre, "extra": list(extra), "modular": modular, "spec": text, "formula": F.to_proto(f), "data": data, "n": n, "impl": out}
     if out[0] != "ok":
         return Violation("evaluate()/explain() raised %r: %s" % (out[1:], text), rep, stream="expl")
     r0, ex = out[1]
@@ -211,7 +214,7 @@ def check_case(ctx, f, data, n, rng, mo=None, mg=None, pre="random"):
         ctx.skipped_undef += 1
         return None
     if not r0 < 0:
-        if any(ex[v] for v in ex):
+        if any(ex[v] for v in ex) and not modular:
             return Violation("specification satisfied at 0 (rho=%r) but explain() reports %r: %s" % (r0, ex, text), rep, stream="expl/sat")
         ctx.count("satisfied")
         return None
@@ -220,9 +223,13 @@ def check_case(ctx, f, data, n, rng, mo=None, mg=None, pre="random"):
         compare_gen(ctx, "explain()", ex, mg, text, rep)
     pos = reported_positions(ex, n)
     # correspondence: positions reported by the mirror of the explainer
+    if modular:
+        mo = "skip"
     if mo is None:
         mo = common.driver_run([disc.proto_case("explain", f, data, n)])[0]
-    if mo.startswith("ok"):
+    if mo == "skip":
+        pass
+    elif mo.startswith("ok"):
         mpos = set()
         for item in mo[2:].split(";"):
             item = item.strip()
@@ -261,7 +268,7 @@ def check_case(ctx, f, data, n, rng, mo=None, mg=None, pre="random"):
         for (v, t), val in tr.items():
             d2[v][t] = val
         ctx.evaluations += 1
-        o2 = rho0(text, vs, d2, n)
+        o2 = rho0(text, vs, d2, n, extra)
         if o2[0] != "ok":
             return Violation("re-evaluation raised %r: %s" % (o2[1:], text), dict(rep, reassigned=d2), stream="expl")
         if o2[1] != o2[1]:
@@ -316,6 +323,60 @@ def explore(ctx, rng, count):
             ctx.traces_validated += 1
             if len(ctx.samples) < 3 and F.depth(f) >= 3:
                 ctx.sample({"spec": "out = " + F.to_text(f), "data": data})
+        else:
+            ctx.violations.append(v)
+            if len(ctx.violations) >= 3:
+                return
+
+
+def modular_stream(ctx, rng, count):
+    """A named sub-formula referenced several times in one assertion, at different time offsets (the explainer reaches the shared
+    node with different requested intervals): sufficiency of what explain() reports for the modular text."""
+    for _ in range(count):
+        nv = rng.choice([1, 2])
+        g = EGen(rng, VARS[:nv], ALLOW, max_bound=rng.choice([1, 2, 3]), consts=(0.0, 1.0, 2.0))
+        g.iffxor = False
+        sub = g.formula(rng.choice([0, 0, 1]))
+
+        def shifted(x):
+            k = rng.random()
+            a = rng.randint(0, 2)
+            if k < 0.3:
+                return ("t1", rng.choice(["next", "prev", "snext", "sprev"]), x)
+            if k < 0.6:
+                return ("tb1", rng.choice(["ev", "alw", "once", "hist"]), a, a + rng.randint(0, 2), x)
+            if k < 0.75:
+                return ("t1", rng.choice(["ev", "alw"]), x)
+            if k < 0.85:
+                return ("u", "not", x)
+            return x
+        A = ("v", "sub0")
+        parts = [A if rng.random() < 0.5 else shifted(A), shifted(A)]
+        if rng.random() < 0.4:
+            parts.append(g.formula(rng.choice([0, 1])))
+        rng.shuffle(parts)
+        body = parts[0]
+        for p_ in parts[1:]:
+            body = ("b", rng.choice(["and", "or", "implies"]), body, p_)
+        if rng.random() < 0.2:
+            body = ("u", "not", body)
+
+        def inline(x):
+            if x == A:
+                return sub
+            return F.rebuild(x, [inline(c_) for c_ in F.children(x)])
+        f = inline(body)
+        if disc.known_region(ctx, {"f": f}, REGIONS):
+            ctx.skipped_known += 1
+            continue
+        text = "sub0 = %s;\nout = %s" % (F.to_text(sub), F.to_text(body))
+        n = rng.randint(2, 9)
+        data = gen_data(rng, F.variables(f) or ["a"], n)
+        ctx.evaluations += 1
+        ctx.count("gen:modular")
+        v = check_case(ctx, f, data, n, rng, pre=None, text=text, extra=("sub0",))
+        if v is None:
+            ctx.traces_validated += 1
         else:
             ctx.violations.append(v)
             if len(ctx.violations) >= 3:
@@ -427,15 +488,16 @@ def replay(ctx, obj):
     f = F.from_proto(obj["formula"])
     data = {k: [float(x) for x in v] for k, v in obj["data"].items()}
     pre = {k: [float(x) for x in v_] for k, v_ in obj["pre"].items()} if obj.get("pre") else None
-    v = check_case(Ctx(ctx.id, ctx.tier, ctx.seed), f, data, obj["n"], random.Random(0), pre=pre)
+    mtext, extra = (obj["spec"], tuple(obj.get("extra") or ())) if obj.get("modular") else (None, ())
+    v = check_case(Ctx(ctx.id, ctx.tier, ctx.seed), f, data, obj["n"], random.Random(0), pre=pre, text=mtext, extra=extra)
     if v is None and "reassigned" in obj:
         d2 = {k: [float(x) for x in vv] for k, vv in obj["reassigned"].items()}
-        text = "out = " + F.to_text(f)
-        out = evaluate_and_explain(text, sorted(data), data, obj["n"])
+        text = mtext or "out = " + F.to_text(f)
+        out = evaluate_and_explain(text, sorted(data), data, obj["n"], None, extra)
         if out[0] == "ok" and out[1][0] < 0:
             pos = reported_positions(out[1][1], obj["n"])
             agrees = all(d2[v][t] == data[v][t] for (v, t) in pos)
-            o2 = rho0(text, sorted(data), d2, obj["n"])
+            o2 = rho0(text, sorted(data), d2, obj["n"], extra)
             if agrees and o2[0] == "ok" and not o2[1] < 0:
                 return False, "explanation is not a sufficient cause on the replayed re-assignment"
     return (v is None), (v.what if v else "explanation is a sufficient cause on the replayed case")
@@ -443,6 +505,8 @@ def replay(ctx, obj):
 
 def run(ctx):
     explore(ctx, ctx.subrng("expl"), ctx.budget(1500, 20000))
+    if not ctx.violations:
+        modular_stream(ctx, ctx.subrng("modular"), ctx.budget(250, 3000))
     if not ctx.violations:
         rule_stream(ctx, ctx.subrng("rules"), ctx.budget(1600, 20000))
 
